@@ -196,7 +196,7 @@ def fam_storage_mip(T=3, thorough=False):
 def fam_storage_hold_T(T=4):
     ids = Ids()
     out = []
-    for mh, dt, pr in itertools.product((1, 2, 3), ([1] * T, [2] * T), ([1, 5, 2, 6], [4, 1, 1, 5])):
+    for mh, dt, pr in itertools.product((1, 2, 3), ([1] * T, [2] * T), ([1, 5, 2, 6, 3, 4, 1, 5], [4, 1, 1, 5, 2, 6, 1, 3])):
         s = F.storage(T, 'n1', size=2, cin=1, cout=1, maxhold=mh * dt[0])
         out.append(F.make_cfg(ids(), T, [slack(T, 'n1', pr[:T], lo=-2, hi=2), s], dt=dt))
     return out
